@@ -368,6 +368,21 @@ pub fn values(ex: &Ex) -> Vec<RVal> {
             }
         }
     }
+    // long lists (size thresholds): 17, 65 and 100 signers / recipients / keys / priv-info strings
+    for n in [17usize, 65, 100] {
+        let many_sigs: Vec<RSignature> = (0..n).map(|k| { let mut s = sigs[k % 3].clone(); s.signature = vec![k as u8]; s }).collect();
+        let many_recs: Vec<RRecipient> = (0..n).map(|k| { let mut r = recs[k % 2].clone(); r.ciphertext = Some(vec![k as u8]); r }).collect();
+        v.push(RVal::Sign(RSign { protected: prot[0].clone(), unprotected: hdrs[1].clone(), payload: None, signatures: many_sigs.clone() }));
+        v.push(RVal::Encrypt(REncrypt { protected: prot[0].clone(), unprotected: hdrs[0].clone(), ciphertext: None, recipients: many_recs.clone() }));
+        v.push(RVal::Mac(RMac { protected: prot[0].clone(), unprotected: hdrs[0].clone(), payload: Some(vec![1]), tag: vec![2], recipients: many_recs.clone() }));
+        v.push(RVal::Recipient(RRecipient { protected: prot[0].clone(), unprotected: hdrs[0].clone(), ciphertext: None, recipients: many_recs }));
+        v.push(RVal::Header(RHeader { counter_signatures: many_sigs, crit: (0..n).map(|_| l_int(4)).collect(), ..Default::default() }));
+        v.push(RVal::KeySet((0..n).map(|k| RKey { kty: l_int(1), key_id: vec![k as u8 + 1], alg: None, key_ops: vec![], base_iv: vec![], params: vec![] }).collect()));
+        let mut ops: Vec<RLabel> = (0..n).map(|k| l_text(&format!("op{}", k))).collect();
+        sort_ops(&mut ops);
+        v.push(RVal::Key(RKey { kty: l_int(1), key_id: vec![], alg: None, key_ops: ops, base_iv: vec![], params: (0..n).map(|k| (l_int(-100 - k as i64), u(k as u64))).collect() }));
+        v.push(RVal::Claims(RClaims { rest: (0..n).map(|k| (l_text(&format!("c{}", k)), u(k as u64))).collect(), ..Default::default() }));
+    }
     let keys = key_values(full);
     for k in &keys {
         v.push(RVal::Key(k.clone()));
@@ -654,6 +669,10 @@ fn colliding_values(full: bool) -> Vec<(RVal, &'static str)> {
                 }
             };
             for h in variants {
+                // exactly one extra: the clash is with the typed field alone
+                let mut h1 = h.clone();
+                h1.rest = vec![(l_int(typed), NULL)];
+                v.push((RVal::Header(h1), if populated { "typed-field" } else { "control" }));
                 for extra_pos in [0usize, 1] {
                     let mut rest = vec![(l_int(1000), u(0))];
                     rest.insert(extra_pos, (l_int(typed), NULL));
@@ -674,6 +693,9 @@ fn colliding_values(full: bool) -> Vec<(RVal, &'static str)> {
                     _ => k.base_iv = b"i".to_vec(),
                 }
             }
+            let mut k1 = k.clone();
+            k1.params = vec![(l_int(typed), NULL)];
+            v.push((RVal::Key(k1), if populated || typed == 1 { "typed-field" } else { "control" }));
             k.params = vec![(l_int(typed), NULL), (l_int(-1), u(1))];
             // kty is always emitted, so label 1 always collides
             v.push((RVal::Key(k.clone()), if populated || typed == 1 { "typed-field" } else { "control" }));
@@ -706,6 +728,9 @@ fn colliding_values(full: bool) -> Vec<(RVal, &'static str)> {
                     _ => c.cti = Some(b"c".to_vec()),
                 }
             }
+            let mut c1 = c.clone();
+            c1.rest = vec![(l_int(typed), NULL)];
+            v.push((RVal::Claims(c1), if populated { "typed-field" } else { "control" }));
             c.rest = vec![(l_int(8), u(0)), (l_int(typed), NULL)];
             v.push((RVal::Claims(c), if populated { "typed-field" } else { "control" }));
         }
